@@ -10,7 +10,57 @@ package handshake
 //     reported certificate it does not hold the key of).
 //  T: seeded adversarial schedules (hsRandom) judged by the reference predicates.
 
-import "testing"
+import (
+	"fmt"
+	"testing"
+
+	"github.com/flynn/noise"
+	"github.com/slackhq/nebula/header"
+)
+
+// c05PatternTable: the completion guard must not depend on the per-subtype content table. A (hypothetical) table entry
+// whose messages carry no certificate, or nothing at all, must not let a handshake complete: requireComplete is the
+// mechanism the property names. The entries are registered for the duration of this function only.
+func c05PatternTable(res *vResult, combos []*hsCombo) {
+	tables := map[string][]msgFlags{
+		"nothing":      {{}, {}},
+		"payload-only": {{expectsPayload: true}, {expectsPayload: true}},
+		"cert-first":   {{expectsPayload: true, expectsCert: true}, {expectsPayload: true}},
+	}
+	sub := header.MessageSubType(0xF5)
+	defer delete(subtypeInfos, sub)
+	for name, flags := range tables {
+		subtypeInfos[sub] = subtypeInfo{pattern: noise.HandshakeIX, msgs: flags}
+		for _, c := range combos {
+			mk := func(id string, initiator bool, idx uint32) *Machine {
+				m, err := NewMachine(hsVDef(1, id), c.getCred(1, id), c.verifier(), func() (uint32, error) { return idx, nil }, initiator, sub)
+				if err != nil {
+					panic(err)
+				}
+				return m
+			}
+			i, r := mk("A", true, 7), mk("B", false, 9)
+			res.Hit("table:" + name)
+			res.Case("table/" + name + "/" + c.name)
+			msg1, err := i.Initiate(nil)
+			if err != nil {
+				continue
+			}
+			msg2, rr, _ := r.ProcessPacket(nil, msg1)
+			var ri *Result
+			if msg2 != nil {
+				_, ri, _ = i.ProcessPacket(nil, msg2)
+			}
+			for side, x := range map[string]*Result{"responder": rr, "initiator": ri} {
+				if x != nil && (x.RemoteCert == nil || x.RemoteCert.Certificate == nil) {
+					res.Mismatch("completion-without-RemoteCert:content-table-"+name,
+						fmt.Sprintf("%s: with a content table whose messages carry %s the %s completed without any peer certificate", c.name, name, side),
+						map[string]any{"combo": c.name, "table": name, "side": side})
+				}
+			}
+		}
+	}
+}
 
 func TestVerif_C05(t *testing.T) {
 	res := vNewResult()
@@ -18,6 +68,7 @@ func TestVerif_C05(t *testing.T) {
 	var plan hsPlan
 	vReadJSON(t, "c05_plan.json", &plan)
 	combos := hsCombos()
+	c05PatternTable(res, combos)
 	var stats = map[string]hsCoverStats{}
 	for _, file := range plan.Graphs {
 		g := hsLoadGraph(t, file)
